@@ -190,10 +190,21 @@ func (s *Set[T]) unsafeIterator() *fun.Iterator[T] {
 // the Set's lock when called.
 func (s *Set[T]) Producer() (out fun.Producer[T]) {
 	defer s.with(s.lock())
-	defer func() { mu := s.mtx.Get(); ft.WhenDo(mu != nil, func() fun.Producer[T] { return out.WithLock(mu) }) }()
+	mu := s.mtx.Get()
+	defer func() { ft.WhenCall(mu != nil, func() { out = out.WithLock(mu) }) }()
 
 	if s.list != nil {
 		return s.list.Producer()
+	}
+
+	if mu != nil {
+		// the map cannot be ranged over while other
+		// goroutines modify it: iterate a snapshot.
+		keys := make([]T, 0, len(s.hash))
+		for k := range s.hash {
+			keys = append(keys, k)
+		}
+		return fun.SliceIterator(keys).Producer()
 	}
 
 	return s.hash.ProducerKeys()
